@@ -5,13 +5,14 @@ and both are run on fresh virtual loops for every assignment of outcomes to
 the awaited futures and every completion order (including futures already done
 before the call); side-effect traces and final outcomes must be identical."""
 import asyncio
+import collections.abc
 import contextvars
 import itertools
 
 from mc.core import Check, h
 from mc.vloop import World
 
-YIELDABLES = ["F0", "F1", "LIST", "DICT", "NONE", "NATIVE", "SUB", "F0AGAIN", "CF", "AW"]
+YIELDABLES = ["F0", "F1", "LIST", "DICT", "NONE", "NATIVE", "SUB", "F0AGAIN", "CF", "AW", "LISTN", "DICTM"]
 SIMPLE = [("log",)] + [("y", e) for e in YIELDABLES] + [("ret",), ("raise",), ("ifret",), ("cvset",), ("ifretgen",)]
 
 
@@ -51,6 +52,12 @@ def emit(stmts, gen_form, indent=1, counter=None):
                 expr = "[F[0], F[1]]" if gen_form else "ref_multi([F[0], F[1]])"
             elif e == "DICT":
                 expr = "{'a': F[1], 'b': F[0]}" if gen_form else "ref_multi({'a': F[1], 'b': F[0]})"
+            elif e == "LISTN":
+                # None as a child of a yielded container (an optional hook that returns a future or None)
+                expr = "[None, F[0]]" if gen_form else "ref_multi([asyncio.sleep(0), F[0]])"
+            elif e == "DICTM":
+                # a dict the rest of the program goes on using: its entries are removed as the operations finish
+                expr = "DM(F)" if gen_form else "ref_multi(DM(F))"
             elif e == "NONE":
                 expr = "None" if gen_form else "asyncio.sleep(0)"
             elif e == "CF":
@@ -89,6 +96,39 @@ def emit(stmts, gen_form, indent=1, counter=None):
     return out
 
 
+def DM(F):
+    """{'a': F[1], 'b': F[0]} whose entries delete themselves when their future completes"""
+    d = {"a": F[1], "b": F[0]}
+    for k, f in list(d.items()):
+        f.add_done_callback(lambda _f, k=k: d.pop(k, None))
+    return d
+
+
+class GenProxy(collections.abc.Generator):
+    """A generator-protocol object that is not a builtin generator (what a tracing decorator puts around a body)."""
+
+    def __init__(self, g):
+        self.g = g
+
+    def send(self, v):
+        return self.g.send(v)
+
+    def throw(self, *a):
+        return self.g.throw(*a)
+
+    def close(self):
+        return self.g.close()
+
+
+def proxied(fn):
+    import functools
+
+    @functools.wraps(fn)
+    def w(*a, **k):
+        return GenProxy(fn(*a, **k))
+    return w
+
+
 async def ref_multi(children):
     """The documented meaning of yielding a list / dict of awaitables, written with plain awaits: wait for every
     child; the result keeps list / key order; if any child failed, the first failure in list / key order is raised."""
@@ -106,18 +146,20 @@ async def ref_multi(children):
     return dict(zip(keys, res)) if keys is not None else res
 
 
-def compile_pair(stmts):
+def compile_pair(stmts, proxy=False):
     src = {}
     fns = {}
     for gen_form in (True, False):
-        head = ("@gen.coroutine\ndef prog(F, log, native, sub, flag, CF):" if gen_form
+        head = (("@gen.coroutine\n@proxied\ndef prog(F, log, native, sub, flag, CF):" if proxy else
+                 "@gen.coroutine\ndef prog(F, log, native, sub, flag, CF):") if gen_form
                 else "async def prog(F, log, native, sub, flag, CF):")
         lines = [head, "    log(('cv', CV.get()))"] + emit(stmts, gen_form) + ["    log('end')"]
         code = "\n".join(lines) + "\n"
         ns = {}
         from tornado import gen
         exec(compile(code, "<c37-%s>" % ("gen" if gen_form else "native"), "exec"),
-             {"gen": gen, "asyncio": asyncio, "Err": Err, "CV": CV, "ref_multi": ref_multi, "Aw": Aw}, ns)
+             {"gen": gen, "asyncio": asyncio, "Err": Err, "CV": CV, "ref_multi": ref_multi, "Aw": Aw, "DM": DM,
+              "proxied": proxied}, ns)
         fns[gen_form] = ns["prog"]
         src[gen_form] = code
     return fns, src
@@ -282,12 +324,23 @@ class C37(Check):
                                          "program\n%s\noutcomes %r order %r pre-done %d flag %r:\n gen.coroutine -> %r\n async def   -> %r"
                                          % (src[True], outcomes, order, npre, flag, a, b),
                                          {"stmts": stmts, "outcomes": outcomes, "order": order, "npre": npre, "flag": flag})
+            if any(x[0] == "y" for x in flatten(stmts)):
+                # the same body behind a generator proxy (not a builtin generator object): one schedule per program
+                fp, srcp = compile_pair(stmts, proxy=True)
+                a = run_one(fp[True], True, ("r", "r", "r"), (0, 1, 2), 1, False)
+                b = run_one(fns[False], False, ("r", "r", "r"), (0, 1, 2), 1, False)
+                st.ev(2)
+                if a != b:
+                    st.violation("differs:generator-proxy:%s" % (a[1][0] + "-vs-" + b[1][0]),
+                                 "program behind a collections.abc.Generator proxy\n%s\n gen.coroutine -> %r\n async def   -> %r"
+                                 % (srcp[True], a, b),
+                                 {"stmts": stmts, "outcomes": ("r", "r", "r"), "order": (0, 1, 2), "npre": 1, "flag": False, "proxy": True})
             if len(st.samples) < 2 and any(x[0] == "try" for x in stmts):
                 st.sample({"gen_source": src[True], "native_source": src[False]})
 
     def replay(self, case):
         stmts = tuplify(case["stmts"])
-        fns, src = compile_pair(stmts)
+        fns, src = compile_pair(stmts, proxy=case.get("proxy", False))
         a = run_one(fns[True], True, tuple(case["outcomes"]), tuple(case["order"]), case["npre"], case["flag"])
         b = run_one(fns[False], False, tuple(case["outcomes"]), tuple(case["order"]), case["npre"], case["flag"])
         return "%s\n%s\ngen.coroutine -> %r\nasync def   -> %r\nequal: %r" % (src[True], src[False], a, b, a == b)
